@@ -1576,12 +1576,10 @@ def spatial_derivatives(
                 if avg_kernel is not None:
                     for d in (d for d in range(D) if d != sdim):
                         dim = SpatialDim(d).tensor_dim(result.ndim)
-                        result = conv1d(
-                            result,
-                            avg_kernel,
-                            dim=dim,
-                            padding=len(avg_kernel) // 2,
-                        )
+                        # Replicate values at the boundary such that averaging does not attenuate these
+                        pad = [(1, 1) if k == d else (0, 0) for k in range(D)]
+                        result = F.pad(result, [n for v in pad for n in v], mode="replicate")
+                        result = conv1d(result, avg_kernel, dim=dim, padding=0)
                 fd_spacing = spacing[:, sdim]
                 result = finite_differences(result, sdim, mode=fd_mode, spacing=fd_spacing)
                 derivs[key] = result
